@@ -17,6 +17,7 @@ History format (JSON-able dict):
 from __future__ import annotations
 
 import asyncio
+import json
 
 from whenever import Instant, TimeDelta
 
@@ -114,10 +115,19 @@ class Runtime:
         self.fexec = {tuple(x) for x in case.get('fexec', [])}
         self.fcb = {tuple(x) for x in case.get('fcb', [])}
         self.raised: list = []                    # payloads of injected failures that really fired
+        self.shared_exc = bool(case.get('shared_exc'))
+        self._exc_cache: dict = {}
         self.ntags = 0
         holders = [_CbHolder(self, 2), _CbHolder(self, 3)]
         self._holders = holders
         self.cbs = [lambda job: self.callback(0, job), lambda job: self.callback(1, job), None, None]
+
+    def exc(self, payload: list) -> UserErr:
+        # user code may raise ONE exception object again and again (a cached error, a failed future that is awaited
+        # repeatedly): every raise still has to reach the handler
+        if not self.shared_exc:
+            return UserErr(payload)
+        return self._exc_cache.setdefault(json.dumps(payload), UserErr(payload))
 
     def cb_obj(self, cb: int):
         # bound methods are created afresh on every access, like user code does
@@ -136,7 +146,7 @@ class Runtime:
             self.ev.append(['cbu', j, cb, job.status.value, nx])
         if (cb, k) in self.fcb:
             self.raised.append(['cb', cb])
-            raise UserErr(['cb', cb])
+            raise self.exc(['cb', cb])
 
     def handler(self, e: Exception) -> None:
         if isinstance(e, UserErr):
@@ -159,7 +169,7 @@ class Runtime:
             self.ev.append(['exec', j, self.clock.ns, ann, self.opi])
             if (j, k) in self.fexec:
                 self.raised.append(['exec', j])
-                raise UserErr(['exec', j])
+                raise self.exc(['exec', j])
         return fn, cell
 
     # ---------------------------------------------------------------------------------------------
